@@ -106,4 +106,86 @@ v("P13-wrapper-finally-as-handlers", [(P, """        try:
             return result
 """)], {"C01": "ok"})
 
+
+# ---------------------------------------------------------------- C02 / C03 / C12
+WRAP_OLD = """        try:
+            return await awaitable
+        except CancelledError:
+            await self._task_cancellation(
+                task_id, custom_callback=cancel_callback
+            )
+            return None
+        finally:
+            await self._task_ending(task_id, custom_callback=end_callback)
+"""
+v("05-sleep-before-try", [(P, '        log.info("Started %s", self._task_name(task_id))\n', '        log.info("Started %s", self._task_name(task_id))\n        await execute_optional(None)\n')],
+  {"C02": "R02.2", "C01": "viol"})
+v("06-finally-to-else-and-handler", [(P, WRAP_OLD, """        try:
+            result = await awaitable
+        except CancelledError:
+            await self._task_cancellation(
+                task_id, custom_callback=cancel_callback
+            )
+            await self._task_ending(task_id, custom_callback=end_callback)
+            return None
+        else:
+            await self._task_ending(task_id, custom_callback=end_callback)
+            return result
+""")], {"C02": "R02.3", "C03": "viol", "C01": "viol"})
+v("08-callback-before-move", [(P, """        try:
+            self._tasks_ended[task_id] = self._tasks_running.pop(task_id)
+        except KeyError:
+            self._tasks_ended[task_id] = self._tasks_cancelled.pop(task_id)
+        self._enough_room.release()
+        log.info("Ended %s", self._task_name(task_id))
+        await execute_optional(custom_callback, args=(task_id,))
+""", """        await execute_optional(custom_callback, args=(task_id,))
+        try:
+            self._tasks_ended[task_id] = self._tasks_running.pop(task_id)
+        except KeyError:
+            self._tasks_ended[task_id] = self._tasks_cancelled.pop(task_id)
+        self._enough_room.release()
+        log.info("Ended %s", self._task_name(task_id))
+""")], {"C03": "R03.2", "C02": "viol", "C01": "viol"})
+v("09-callbacks-swapped-in-start_task", [(P, "                    awaitable, task_id, end_callback, cancel_callback\n", "                    awaitable, task_id, cancel_callback, end_callback\n")], {"C03": "R03.5"})
+v("10-except-baseexception", [(P, WRAP_OLD, WRAP_OLD.replace("except CancelledError:", "except BaseException:"))], {"C03": "viol"})
+v("11-execute_optional-no-await", [("internals/helpers.py", "        return await cast(Awaitable[_R], function(*args, **kwargs))\n", "        return cast(_R, function(*args, **kwargs))\n")], {"C03": "R03.6"})
+v("12b-cancellation-called-from-finally", [(P, "        finally:\n            await self._task_ending(task_id, custom_callback=end_callback)\n", "        finally:\n            await self._task_cancellation(task_id, custom_callback=None)\n            await self._task_ending(task_id, custom_callback=end_callback)\n")],
+  {"C03": "viol"})
+v("12c-cancel-cb-after-end", [(P, WRAP_OLD, """        cancelled = False
+        try:
+            return await awaitable
+        except CancelledError:
+            cancelled = True
+            return None
+        finally:
+            await self._task_ending(task_id, custom_callback=end_callback)
+            if cancelled:
+                await execute_optional(cancel_callback, args=(task_id,))
+""")], {"C03": "viol"})
+v("12d-end-callback-gets-wrong-id", [(P, '        log.info("Ended %s", self._task_name(task_id))\n        await execute_optional(custom_callback, args=(task_id,))', '        log.info("Ended %s", self._task_name(task_id))\n        await execute_optional(custom_callback, args=(self._num_started,))')], {"C03": "viol"})
+v("12e-simple-pool-callbacks-swapped", [(P, "        self._end_callback: EndCB | None = end_callback\n        self._cancel_callback: CancelCB | None = cancel_callback\n", "        self._end_callback: EndCB | None = cancel_callback\n        self._cancel_callback: CancelCB | None = end_callback\n")], {"C03": "R03.5"})
+v("12f-apply-callbacks-swapped", [(P, """                    num,
+                    end_callback=end_callback,
+                    cancel_callback=cancel_callback,
+                )
+            )
+        )
+        return group_name""", """                    num,
+                    end_callback=cancel_callback,
+                    cancel_callback=end_callback,
+                )
+            )
+        )
+        return group_name""")], {"C03": "R03.5"})
+v("12g-flush-clears-running", [(P, "        for task_id in finished:\n            self._tasks_ended.pop(task_id, None)\n", "        self._tasks_running.clear()\n        for task_id in finished:\n            self._tasks_ended.pop(task_id, None)\n")], {"C03": "R03.1", "C02": "viol"})
+v("41-flush-clear-after-gather", [(P, "        for task_id in finished:\n            self._tasks_ended.pop(task_id, None)\n            self._tasks_cancelled.pop(task_id, None)\n", "        self._tasks_ended.clear()\n        self._tasks_cancelled.clear()\n")], {"C02": "R13.1", "C03": "R13.1"})
+v("41b-flush-pop-live-registry", [(P, "        for task_id in finished:\n", "        for task_id in list(self._tasks_ended) + list(self._tasks_cancelled):\n")], {"C02": "R13.1"})
+v("P-flush-filter-done", [(P, "        for task_id in finished:\n            self._tasks_ended.pop(task_id, None)\n            self._tasks_cancelled.pop(task_id, None)\n", "        for task_id, task in list(self._tasks_ended.items()):\n            if task.done():\n                self._tasks_ended.pop(task_id, None)\n        for task_id, task in list(self._tasks_cancelled.items()):\n            if task.done():\n                del self._tasks_cancelled[task_id]\n")], {"C02": "ok", "C03": "ok"})
+for _n in ("P2-rename-locals", "P3-log-lines", "P5-ending-if-instead-of-try", "P6-increment-after-create", "P12-extract-move-helper", "P13-wrapper-finally-as-handlers"):
+    for _v in V:
+        if _v["name"] == _n:
+            _v["expect"].update({"C02": "ok", "C03": "ok"})
+            _v["props"] = list(_v["expect"])
+
 VARIANTS = V
